@@ -1,5 +1,6 @@
 import Acra.Model.NPD
 import Acra.Props.C01.NPD
+import Acra.Lemmas.NPDRS232
 namespace Acra.Props.C14
 open Acra.Py Acra.Model.NPD Acra.Gen.NPD Acra.Lemmas.NPD
 
@@ -132,5 +133,50 @@ theorem NPD_eq_decode (a t : State) (dt mc ts : Nat) (h : NPD_WF a dt mc ts)
       rw [hb1, hb2, hb3, hb4, hb5]
       simp [withBase, heff, h6 hgk, Nat.add_comm]
   simp [eq, decodedNPD, packedNPD, hsegs]
+
+/-- the same for the RS-232 data type (0x50): the segments are RS232Segment objects (equality is class-strict and
+    `NPD.unpack` builds RS232Segment objects); `RS232Segment.__eq__` compares the header fields, the status word,
+    the sync bytes and the data — the decoded segment agrees with the segment as `pack` left it on all of them.
+    No `TypedOK` hypothesis: the typed header of a well-formed RS-232 segment is always complete. -/
+theorem NPD_eq_decode_rs232 (a t : State) (dt mc ts : Nat) (h : NPD_WF a dt mc ts)
+    (hk : kindOf dt = .rs232) (hseg : ∀ g ∈ a.segments, g.kind = .rs232) :
+    ∃ b, (pack a).2 = .ok b ∧ (unpack t b).2 = .ok () ∧ eq (pack a).1 (unpack t b).1 = true := by
+  have h13 : ∀ g ∈ a.segments, Seg_WF g := h.2.2.2.2.2.2.2.2.2.2.2.2.1
+  have hok : ∀ g ∈ a.segments, TypedOK (kindOf dt) g := by
+    intro g hg; rw [hk]; exact typedOK_rs232 g (h13 g hg) (hseg g hg)
+  obtain ⟨b, hp, hu, _⟩ := C01.NPD_roundtrip a t dt mc ts h hok (Or.inr hseg)
+  refine ⟨b, hp, by rw [hu], ?_⟩
+  rw [hu, NPD_pack_eq a dt mc ts h]
+  have hsegs : segsEq (a.segments.map (decodedSeg (kindOf dt))) (a.segments.map packedSeg) = true := by
+    rw [hk]
+    generalize a.segments = gs at h13 hseg
+    induction gs with
+    | nil => rfl
+    | cons g gs ih =>
+      simp only [List.map_cons, segsEq, Bool.and_eq_true]
+      exact ⟨Seg_eq_decoded_rs232 g (h13 g (by simp)) (hseg g (by simp)),
+        ih (fun x hx => h13 x (by simp [hx])) (fun x hx => hseg x (by simp [hx]))⟩
+  simp [eq, decodedNPD, packedNPD, hsegs]
+
+/-- every data type at once: the segments are of the class the data type dictates -/
+theorem NPD_eq_decode_any (a t : State) (dt mc ts : Nat) (h : NPD_WF a dt mc ts)
+    (hok : ∀ g ∈ a.segments, TypedOK (kindOf dt) g) (hseg : ∀ g ∈ a.segments, g.kind = kindOf dt) :
+    ∃ b, (pack a).2 = .ok b ∧ (unpack t b).2 = .ok () ∧ eq (pack a).1 (unpack t b).1 = true := by
+  by_cases hk : kindOf dt = .rs232
+  · exact NPD_eq_decode_rs232 a t dt mc ts h hk (fun g hg => (hseg g hg).trans hk)
+  · exact NPD_eq_decode a t dt mc ts h hok hk hseg
+
+/-- non-vacuity: an RS-232 packet with one segment carrying two sync bytes and three data bytes -/
+example : NPD_WF { fresh with datatype := some 0x50, mcastaddr := some 0xEB000001, timestamp := some 7,
+                              segments := [{ Seg.fresh .rs232 with sync_bytes := [0xAA, 0x55], data := [1, 2, 3] }] }
+    0x50 0xEB000001 7 := by
+  refine ⟨by simp [fresh, NPD_VERSION], rfl, rfl, by omega, by simp [fresh], by simp [fresh], by simp [fresh],
+    by simp [fresh], rfl, by omega, rfl, by omega, ?_, ?_⟩
+  · intro g hg
+    simp only [List.mem_singleton] at hg
+    subst hg
+    refine ⟨by decide, by decide, by decide, by decide, fun _ => ⟨by decide, by decide⟩, fun h => absurd rfl h⟩
+  · decide
+example : kindOf 0x50 = .rs232 := rfl
 
 end Acra.Props.C14
